@@ -243,8 +243,14 @@ func DecodeClaimsFromJSON(buf []byte) (IClaims, error) {
 
 	var found IProfile
 
+	// set if the object carries a (non-null) profile claim of any
+	// registered profile
+	profileDeclared := false
+
 	for name, entry := range profilesRegister {
-		if profileTag, ok := decoded[entry.JSONTag]; ok {
+		if profileTag, ok := decoded[entry.JSONTag]; ok && profileTag != nil {
+			profileDeclared = true
+
 			if profileTag != entry.Profile.GetName() {
 				continue
 			}
@@ -259,7 +265,14 @@ func DecodeClaimsFromJSON(buf []byte) (IClaims, error) {
 	}
 
 	if found == nil {
-		return nil, errors.New(`could not match profile`)
+		defaultEntry, ok := profilesRegister[""]
+		if profileDeclared || !ok {
+			return nil, errors.New(`could not match profile`)
+		}
+
+		// no profile claim present: assume the default profile
+		// (PSA_IOT_PROFILE_1), as documented and as done for CBOR
+		found = defaultEntry.Profile
 	}
 
 	claims := found.GetClaims()
